@@ -51,6 +51,7 @@ type verifJobOpts struct {
 	symFinish     bool // ... except finish timestamps, which stay symbolic
 	oneResult     bool // finished refs are Failed (result not explored)
 	noRunning     bool // refs never carry a running timestamp
+	preMarked     bool // an unfinished ref may already carry DeletedStatus=Killed (set before a delete)
 }
 
 func (o verifJobOpts) instant(name string, k int) time.Time {
@@ -197,6 +198,10 @@ func verifDrawJobState(o verifJobOpts) *verifJob {
 			ref.Status.Result = r.result
 			st := ref.Status
 			ref.DeletedStatus = &st
+			r.hasDeleted = true
+		}
+		if o.preMarked && !r.hasFinished && vz.Bool("ref.preMarkedKilled") {
+			ref.DeletedStatus = &execution.TaskStatus{State: execution.TaskTerminated, Result: execution.TaskKilled}
 			r.hasDeleted = true
 		}
 		j.refs = append(j.refs, r)
